@@ -81,6 +81,16 @@ func verifHarness_C07_pairs() {
 	verifAssume(verifAnd(s >= 1, s <= lcm))
 	verifReach("lcm-shard-in-range")
 
+	// the other server of the connection (same process, same LCM, the other real count) may have
+	// mapped the same LCM shard before: the answer depends on this direction's count only
+	if verifChoose("other-direction-first", 2) == 1 {
+		otherT := local
+		if inbound {
+			otherT = remote
+		}
+		_ = mapShardIDUnique(lcm, otherT, s)
+		verifReach("other-direction-mapped-first")
+	}
 	mapped := mapShardIDUnique(lcm, t, s)
 
 	verifAssert(verifAnd(mapped >= 1, mapped <= t), "mapped-in-1..count")
@@ -140,10 +150,6 @@ func verifHarness_C07_stream() {
 	local, remote := c07Pair()
 	lcm := common.LCM(local, remote)
 	inbound := verifChoose("direction", 2) == 0
-	t := remote
-	if inbound {
-		t = local
-	}
 	var s int32
 	switch verifChoose("shard", 3) {
 	case 0:
@@ -152,6 +158,18 @@ func verifHarness_C07_stream() {
 		s = lcm
 	case 2:
 		s = (lcm + 1) / 2
+	}
+	// both servers of one connection live in one process and serve the same LCM shard space: the stream
+	// for LCM shard s is opened in one direction, then in the other (nothing may carry over)
+	c07ServeStream(local, remote, lcm, s, inbound)
+	verifReach("other-direction-served-afterwards")
+	c07ServeStream(local, remote, lcm, s, !inbound)
+}
+
+func c07ServeStream(local, remote, lcm, s int32, inbound bool) {
+	t := remote
+	if inbound {
+		t = local
 	}
 	ini := &fwInit{ctx: metadata.NewIncomingContext(context.Background(), metadata.Pairs("k", "v")), in: make(chan c06Event, 1)}
 	src := &fwSrc{in: make(chan c06Event, 1)}
